@@ -8,9 +8,6 @@
 /// std: "Computes the absolute value of self. [...] The absolute value of i128::MIN cannot be
 /// represented as an i128, and attempting to calculate it will cause an overflow."
 /// The overflow case is excluded by the precondition, i.e. every call site must prove x > MIN.
-pub assume_specification [i128::abs](x: i128) -> (r: i128)
-    requires x > i128::MIN,
-    ensures r == abs_int(x as int);
 
 /// std: "Returns the number of trailing zeros in the binary representation of self."
 /// Stated for positive x only: 2^r divides x and x / 2^r is odd.
